@@ -1,3 +1,4 @@
+import Clover.Generated.Facts
 import Clover.Props.C02
 import Clover.Spec.Spec
 import Clover.Proofs.RefineFindAll
@@ -163,3 +164,48 @@ theorem findAll_after_any_history (ops : List Op) (hok : ∀ op ∈ ops, OpOK op
   findAll_after_history_up_to_ties likeFn fnFam ops hok hdom q coll hl hdomain hsd hnn
 
 end CV.Props.C01
+
+-- SOURCE-TEXT-BEGIN (generated by tools/mk_source_theorems.py; do not edit by hand)
+namespace CV.Props.C01
+
+/-- (facts, regenerated from the source on every run) **The source text the model transcribes is the text of the
+    current source**: the bodies (comments and layout removed) of the 32 functions the model behind C01 was written from and
+    validated against.  Any edit of one of them breaks this theorem at build time; the check then searches with the
+    property's own oracles for a failing input, and reports `no-failing-input-found` if it finds none: the model then
+    has to be re-validated against the new text (and this block regenerated). -/
+theorem source_decision_logic : CV.Facts.logicC01 = [
+  "clover..isFieldReference: { s, isStr := v.(string) return query.IsField(v) || (isStr && strings.HasPrefix(s, \"$\")) }", 
+  "clover..normalizeCriteria: { if q.Criteria() != nil { v := &CriteriaNormalizeVisitor{} c := q.Criteria().Accept(v) if v.err != nil { return nil, v.err } q = q.Where(c.(query.Criteria)) } return q, nil }", 
+  "clover..normalizeOperand: { if query.IsField(value) { return value, nil } elems, isSlice := value.([]interface{}) if !isList || !isSlice { return internal.Normalize(value) } normElems := make([]interface{}, 0, len(elems)) for _, elem := range elems { normElem, err := normalizeOperand(elem, false) if err != nil { return nil, err } normElems = append(normElems, normElem) } return normElems, nil }", 
+  "clover.CriteriaNormalizeVisitor.VisitBinaryCriteria: { leftRes := c.C1.Accept(v) rightRes := c.C2.Accept(v) if leftRes == nil || rightRes == nil { return nil } return &query.BinaryCriteria{ OpType: c.OpType, C1: leftRes.(query.Criteria), C2: rightRes.(query.Criteria), } }", 
+  "clover.CriteriaNormalizeVisitor.VisitNotCriteria: { res := c.C.Accept(v) if res == nil { return nil } return &query.NotCriteria{C: res.(query.Criteria)} }", 
+  "clover.CriteriaNormalizeVisitor.VisitUnaryCriteria: { normValue := c.Value if c.OpType != query.FunctionOp { var err error normValue, err = normalizeOperand(c.Value, c.OpType == query.InOp || c.OpType == query.ContainsOp) if err != nil { v.err = err return nil } } return &query.UnaryCriteria{ Field: c.Field, OpType: c.OpType, Value: normValue, } }", 
+  "clover.DB.FindAll: { q, err := normalizeCriteria(q) if err != nil { return nil, err } docs := make([]*d.Document, 0) err = db.IterateDocs(q, func(doc *d.Document) error { docs = append(docs, doc) return nil }) return docs, err }", 
+  "clover.DB.IterateDocs: { tx, err := db.store.Begin(false) if err != nil { return err } defer tx.Rollback() return db.iterateDocs(tx, q, consumer) }", 
+  "clover.DB.iterateDocs: { meta, err := db.getCollectionMeta(q.Collection(), tx) if err != nil { return err } nd := buildQueryPlan(q, db.getIndexes(tx, q.Collection(), meta), &consumerNode{consumer: consumer}) return execPlan(nd, tx) }", 
+  "clover.iterNode.iterateFullCollection: { prefix := []byte(getDocumentKeyPrefix(nd.collection)) return iteratePrefix(prefix, tx, func(item store.Item) error { doc, err := d.Decode(item.Value) if err != nil { return err } if nd.filter == nil || nd.filter.Satisfy(doc) { return nd.CallNext(doc) } return nil }) }", 
+  "clover.iterNode.iterateIndex: { iterFunc := func(docId string) error { doc, err := getDocumentById(nd.collection, docId, tx) if err != nil || doc == nil { return err } if nd.filter == nil || nd.filter.Satisfy(doc) { return nd.CallNext(doc) } return nil } err := nd.idxQuery.Run(iterFunc) return err }", 
+  "query..IsField: { _, ok := v.(*field) return ok }", 
+  "query..and: { return &BinaryCriteria{ OpType: LogicalAnd, C1: c1, C2: c2, } }", 
+  "query..getFieldOrValue: { if cmpField, ok := value.(*field); ok { value = doc.Get(cmpField.name) } else if fStr, ok := value.(string); ok && strings.HasPrefix(fStr, \"$\") { fieldName := strings.TrimLeft(fStr, \"$\") value = doc.Get(fieldName) } return value }", 
+  "query..newCriteria: { return &UnaryCriteria{ OpType: opType, Field: field, Value: value, } }", 
+  "query..not: { return &NotCriteria{c} }", 
+  "query..or: { return &BinaryCriteria{ OpType: LogicalOr, C1: c1, C2: c2, } }", 
+  "query.BinaryCriteria.Satisfy: { if c.OpType == LogicalAnd { return c.C1.Satisfy(doc) && c.C2.Satisfy(doc) } return c.C1.Satisfy(doc) || c.C2.Satisfy(doc) }", 
+  "query.NotCriteria.Satisfy: { return !c.C.Satisfy(doc) }", 
+  "query.Query.satisfy: { if q.criteria == nil { return true } return q.criteria.Satisfy(doc) }", 
+  "query.UnaryCriteria.Satisfy: { switch c.OpType { case ExistsOp: return c.exist(doc) case EqOp: return c.eq(doc) case LikeOp: return c.like(doc) case InOp: return c.in(doc) case GtOp, GtEqOp, LtOp, LtEqOp: return c.compare(doc) case ContainsOp: return c.contains(doc) case FunctionOp: return c.Value.(func(*d.Document) bool)(doc) } return false }", 
+  "query.UnaryCriteria.compare: { normValue, err := internal.Normalize(getFieldOrValue(doc, c.Value)) if err != nil { return false } res := internal.Compare(doc.Get(c.Field), normValue) switch c.OpType { case GtOp: return res > 0 case GtEqOp: return res >= 0 case LtOp: return res < 0 case LtEqOp: return res <= 0 } panic(\"unreachable code\") }", 
+  "query.UnaryCriteria.contains: { elems := c.Value.([]interface{}) fieldValue := doc.Get(c.Field) slice, _ := fieldValue.([]interface{}) if fieldValue == nil || slice == nil { return false } for _, elem := range elems { found := false actualValue, err := internal.Normalize(getFieldOrValue(doc, elem)) if err != nil { return false } for _, val := range slice { if internal.Compare(actualValue, val) == 0 { found = true break } } if !found { return false } } return true }", 
+  "query.UnaryCriteria.eq: { value, err := internal.Normalize(getFieldOrValue(doc, c.Value)) if err != nil { return false } if !doc.Has(c.Field) { return false } return internal.Compare(doc.Get(c.Field), value) == 0 }", 
+  "query.UnaryCriteria.exist: { return doc.Has(c.Field) }", 
+  "query.UnaryCriteria.in: { values := c.Value.([]interface{}) docValue := doc.Get(c.Field) for _, value := range values { actualValue, err := internal.Normalize(getFieldOrValue(doc, value)) if err == nil && internal.Compare(actualValue, docValue) == 0 { return true } } return false }", 
+  "query.UnaryCriteria.like: { pattern := c.Value.(string) s, isString := doc.Get(c.Field).(string) if !isString { return false } matched, err := regexp.MatchString(pattern, s) return matched && err == nil }", 
+  "query.field.Contains: { return newCriteria(ContainsOp, f.name, elems) }", 
+  "query.field.Eq: { return newCriteria(EqOp, f.name, value) }", 
+  "query.field.In: { return newCriteria(InOp, f.name, values) }", 
+  "query.field.Neq: { return f.Eq(value).Not() }", 
+  "query.field.NotExists: { return newCriteria(ExistsOp, f.name, nil).Not() }"] := by rfl
+
+end CV.Props.C01
+-- SOURCE-TEXT-END
